@@ -28,6 +28,26 @@ CLAIMS = {
     note="Trusted: Lean kernel; injectivity of SHA-256∘serde_json is a hypothesis; edit catalogue of 10 interface variants; textual JSON mutation; "
          "error-message classification in harness/src/c15.rs. Known finding: core_ir is covered by no digest.",
     technique="Lean 4 proof (invariant by induction over operation histories) + history-level differential correspondence"),
+ "C20": dict(
+    category="other",
+    text="Partial proof + fault enumeration. PROVED in Lean over a model of line-index's LineIndex, the offset_at glue of query.rs (its three "
+         "checks are regenerated from the Rust source into Gen/QueryGlue.lean on every run), rowan's token_at_offset on the leaf tokens and the "
+         "completion-placeholder logic: offset_total (for every text and every (line, col) the offset handed to the queries is absent or lies in "
+         "[0, len] on a char boundary), offset_complete (every in-text boundary position is accepted), token_at_in_range (the token selection never "
+         "fails for an in-range offset and every selected token contains it), hover_no_bad_offset (rowan's assertion cannot fire), "
+         "dot_prepare_safe / colon_prepare_safe (the `.`/`::` anchor and the focus offset lie inside the parsed text, insert_str is called on a "
+         "char boundary); the unfixed code is kept as Glue.unchecked with the counter-example. The model is diffed against the line-index crate, "
+         "rowan and the observable behaviour of the queries on every tie position. SEARCHED, not proved: that hover_type / dot_completions / "
+         "colon_colon_completions and the wasm-app wrappers return normally (catch_unwind + 5 s watchdog) on every prefix (token boundaries and "
+         "mid-token) and token-level mutation of corpus, seed, generated and token-soup programs x every (line, col) incl. positions outside the "
+         "text; that hover at every TAST identifier of an accepted program equals the TAST type; that every offered completion, inserted, does not "
+         "draw the diagnostic a non-existent name draws.",
+    design_ref="§5 C20, §C20 — as built",
+    note="Trusted: Lean kernel; extract_query_glue (regex over query.rs); harness/src/c20.rs + crash.rs; line-index and rowan behave as modelled "
+         "(diffed, not proved); token tiling of the tree (C12) is a hypothesis. Crash-freedom of lowering/hir/typer on erroneous programs is a search "
+         "result over the explored texts only. Known findings: hover on shorthand struct fields/binders and on dyn-coerced variables; `::` completions "
+         "in an impl header.",
+    technique="Lean 4 proof of the position logic + differential tie + crash/hang search (fault enumeration) + hover/completion differential against the compiler"),
 }
 
 NOT_YET = "not claimed yet: the model/theorems/tie for this property are still being built (see DESIGN.md §5)"
